@@ -15,7 +15,7 @@ from vf.vworld import base, peer
 METHODS = ['GET', 'POST', 'OPTIONS', 'PUT', 'DELETE', 'HEAD']
 EIOS = [None, '4', '3', '5', '', '44']
 TRANSPORTS = [None, 'polling', 'websocket', 'bogus']
-SIDKINDS = ['absent', 'live_polling', 'live_upgraded', 'mid_upgrade', 'closed', 'unknown', 'rejected']
+SIDKINDS = ['absent', 'live_polling', 'live_upgraded', 'mid_upgrade', 'closed', 'unknown', 'rejected', 'closing']
 HDRS = ['none', 'both', 'upgrade_only', 'connection_only', 'other_protocol']
 JS = [None, '0', '5', 'x', '']
 CFGS = ['both', 'polling', 'websocket']
@@ -25,6 +25,12 @@ class RejectOnHeader(base.Behaviour):
     def connect(self, sid, environ):
         if environ.get('HTTP_X_REJECT'):
             return [('return', False)]
+        return []
+
+    def disconnect(self, sid, reason):
+        # sessions listed in `sleepy` stay in the middle of their close: the handler never returns within the world's life
+        if sid in getattr(self, 'sleepy', ()):
+            return [('sleep', 100000.0)]
         return []
 
 
@@ -60,6 +66,13 @@ def prepare(impl, cfg):
             keep['mid'] = mu
         sids['closed'] = peer.sid_of(peer.open_polling(w))
         peer.post(w, sids['closed'], '1')
+        # a session whose close is under way: the disconnect event has fired, its handler has not returned
+        sids['closing'] = peer.sid_of(peer.open_polling(w))
+        w.call('send', sids['closing'], 'queued-c')
+        w.run()
+        w.beh.sleepy = {sids['closing']}
+        w.call('disconnect', sids['closing'])
+        w.run()
         r = w.http('GET', peer.BASEQ, headers={'X-Reject': '1'})
         w.run()
         sids['rejected'] = [ev[1] for ev in w.events if ev[0] == 'connect'][-1]
@@ -94,7 +107,7 @@ def reference(method, eio, transport, sidkind, hdr, j, cfg):
         defects.add('jsonp')
     upgrade = hdr == 'both'
     up_hdr_ws = hdr in ('both', 'upgrade_only')
-    session_transport = {'live_polling': 'polling', 'mid_upgrade': 'polling',
+    session_transport = {'live_polling': 'polling', 'mid_upgrade': 'polling', 'closing': 'polling',
                          'live_upgraded': 'websocket'}.get(sidkind)
     if method == 'GET':
         if sidkind == 'absent':
@@ -112,6 +125,8 @@ def reference(method, eio, transport, sidkind, hdr, j, cfg):
     elif method == 'POST':
         if session_transport is None:
             defects.add('sid')
+    if sidkind == 'closing' and not defects:
+        return 'any', None           # whether a well-addressed request for a session that is being closed is served is open
     if not defects:
         if method == 'OPTIONS':
             return 'admit', {200}
